@@ -270,14 +270,14 @@ class Prov:
             else:
                 updates.append((path, o))
         # calls that receive `&mut local` may change it: record them so that taint queries see them
-        for mb, mt, mai in self.mut_index(fn).get(l, []):
+        for mb, mt, mai, mpath in self.mut_index(fn).get(l, []):
             if site is not None and not self._reaches(fn, (mb, "t"), site):
                 continue
             c = mt["callee"]
-            if c["name"] in ("reserve", "reserve_exact", "shrink_to_fit", "clear", "truncate", "sort", "dedup"):
+            if c["name"] in ("reserve", "reserve_exact", "shrink_to_fit"):
                 continue
             others = tuple(self.operand(fn, a, (mb, "t")) for j, a in enumerate(mt["args"]) if j != mai)
-            updates.append((("&mut",), ("call", c["key"], others, c.get("resolved"), (fn.key, mb))))
+            updates.append((("&mut",) + mpath, ("mutby", c["key"], others, (fn.key, mb))))
         whole = [w for w in whole if w != ("cycle",)] or whole
         if not whole:
             base = ("unknown", "undef _%d" % l)
@@ -397,12 +397,12 @@ class Prov:
         return self.local(fn, 0)
 
     def mutations(self, fn, l):
-        """calls that receive `&mut local` (directly or via reborrow temps)"""
-        return list(self.mut_index(fn).get(l, []))
+        """calls that receive `&mut local` — the whole local — directly or via reborrow temps"""
+        return [(b, t, ai) for b, t, ai, path in self.mut_index(fn).get(l, []) if not path]
 
     def mut_index(self, fn):
-        """{local: [(block, call terminator, argument index)]} for arguments that are `&mut local` (whole local,
-        directly or through reborrow temporaries)"""
+        """{local: [(block, call terminator, argument index, field path)]} for arguments that are `&mut local` or
+        `&mut local.f.g` (directly or through reborrow temporaries)"""
         idx = self._mut_idx.get(fn.key)
         if idx is not None:
             return idx
@@ -410,13 +410,13 @@ class Prov:
         for bid, t in fn.calls():
             for ai, a in enumerate(t["args"]):
                 if a["k"] in ("copy", "move") and not any(e["k"] == "field" for e in a["place"]["p"]):
-                    for root in self._mut_roots(fn, a["place"]["l"], 0, set()):
-                        idx.setdefault(root, []).append((bid, t, ai))
+                    for root, path in self._mut_roots(fn, a["place"]["l"], 0, set()):
+                        idx.setdefault(root, []).append((bid, t, ai, path))
         self._mut_idx[fn.key] = idx
         return idx
 
     def _mut_roots(self, fn, tmp, depth, seen):
-        """locals L such that temporary `tmp` is `&mut L` (possibly via reborrows / casts)"""
+        """(local L, field path) such that temporary `tmp` is `&mut L.path` (possibly via reborrows / casts)"""
         out = set()
         if depth > 6 or tmp in seen:
             return out
@@ -427,33 +427,19 @@ class Prov:
             rv = x["rv"]
             if rv["k"] == "ref" and rv["mut"]:
                 pl = rv["place"]
-                if any(e["k"] == "field" for e in pl["p"]):
+                path = tuple(e["name"] for e in pl["p"] if e["k"] == "field")
+                if any(e["k"] not in ("field", "deref", "downcast") for e in pl["p"]):
                     continue
-                if any(e["k"] == "deref" for e in pl["p"]):
-                    out |= self._mut_roots(fn, pl["l"], depth + 1, seen)
+                if pl["p"] and pl["p"][0]["k"] == "deref":
+                    for root, p0 in self._mut_roots(fn, pl["l"], depth + 1, seen):
+                        out.add((root, p0 + path))
+                    if not self.defs(fn).get(pl["l"]) or 1 <= pl["l"] <= fn.arg_count:
+                        out.add((pl["l"], path))
                 else:
-                    out.add(pl["l"])
+                    out.add((pl["l"], path))
             elif rv["k"] in ("use", "cast") and rv["op"]["k"] in ("copy", "move") and not rv["op"]["place"]["p"]:
                 out |= self._mut_roots(fn, rv["op"]["place"]["l"], depth + 1, seen)
         return out
-
-    def _is_mut_borrow_of(self, fn, pl, l, depth):
-        if depth > 6 or pl["p"] and any(e["k"] == "field" for e in pl["p"]):
-            return False
-        tmp = pl["l"]
-        for kind, bid, i, x in self.defs(fn).get(tmp, []):
-            if kind != "assign":
-                continue
-            rv = x["rv"]
-            if rv["k"] == "ref" and rv["mut"]:
-                if rv["place"]["l"] == l:
-                    return True
-                if self._is_mut_borrow_of(fn, rv["place"], l, depth + 1):
-                    return True
-            elif rv["k"] in ("use", "cast") and rv["op"]["k"] in ("copy", "move"):
-                if self._is_mut_borrow_of(fn, rv["op"]["place"], l, depth + 1):
-                    return True
-        return False
 
 
 # -------------------------------------------------------------------- origin algebra
@@ -496,7 +482,13 @@ def project(o, name, of=""):
         return multi([project(x, name, of) for x in o[1]])
     if k == "upd":
         outs = [project(o[1], name, of)]
+        muts = []
         for path, v in o[2]:
+            if path and path[0] == "&mut":
+                # the object (or one of its fields) was handed out mutably to a call
+                if len(path) == 1 or path[1] == name:
+                    muts.append((("&mut",) + path[2:], v))
+                continue
             if path and path[0] == name:
                 if len(path) == 1:
                     outs.append(v)
@@ -504,7 +496,10 @@ def project(o, name, of=""):
                     outs.append(("upd", ("unknown", "partial"), ((path[1:], v),)))
             elif path in (("*",), ("[]",)):
                 outs.append(project(v, name, of))
-        return multi(outs)
+        res = multi(outs)
+        if muts:
+            res = ("upd", res, tuple(sorted(set(muts), key=repr)))
+        return res
     return ("field", o, name)
 
 
@@ -541,7 +536,7 @@ def peel(o):
     while True:
         if o[0] == "vp":
             o = o[2]
-        elif o[0] == "upd" and all(p == ("&mut",) for p, v in o[2]):
+        elif o[0] == "upd" and all(p and p[0] == "&mut" for p, v in o[2]):
             o = o[1]
         else:
             return o
@@ -554,12 +549,16 @@ def deep_peel(o):
         return deep_peel(o[2])
     if k == "call":
         return ("call", o[1], tuple(deep_peel(a) for a in o[2]), None, None)
+    if k == "mutby":
+        return ("mutby", o[1], tuple(deep_peel(a) for a in o[2]), None)
     if k in ("agg", "closure"):
         return (k, o[1], tuple((f, deep_peel(v)) for f, v in o[2]))
     if k == "multi":
         return multi([deep_peel(x) for x in o[1]])
     if k == "upd":
-        return ("upd", deep_peel(o[1]), tuple((p, deep_peel(v)) for p, v in o[2]))
+        if all(p and p[0] == "&mut" for p, v in o[2]):
+            return deep_peel(o[1])
+        return ("upd", deep_peel(o[1]), tuple((p, deep_peel(v)) for p, v in o[2] if not (p and p[0] == "&mut")))
     if k in ("binop",):
         return (k, o[1], deep_peel(o[2]), deep_peel(o[3]))
     if k in ("unop", "cast"):
@@ -586,7 +585,7 @@ def leaves(o, out=None):
         out.add(o if k != "cparam" else o[:3])
     elif k == "vp":
         leaves(o[2], out)
-    elif k == "call":
+    elif k in ("call", "mutby"):
         out.add(("callee", o[1]))
         for a in o[2]:
             leaves(a, out)
@@ -622,7 +621,7 @@ def contains(o, pred):
     k = o[0]
     if k == "vp":
         return contains(o[2], pred)
-    if k == "call":
+    if k in ("call", "mutby"):
         return any(contains(a, pred) for a in o[2])
     if k in ("agg", "closure"):
         return any(contains(v, pred) for f, v in o[2])
@@ -705,6 +704,8 @@ def fmt(o, depth=0):
         return "fn %s" % o[1]
     if k == "call":
         return "%s(%s)" % (o[1], ", ".join(fmt(a, d) for a in o[2]))
+    if k == "mutby":
+        return "mutated-by %s(.., %s)" % (o[1], ", ".join(fmt(a, d) for a in o[2]))
     if k == "vp":
         return "%s~(%s)" % (o[1], fmt(o[2], d))
     if k == "agg":
